@@ -356,14 +356,28 @@ theorem Alloc.val' {H H1 H2 : Heap α} {v : Tensor α} {c : Ctx α} (a : Alloc H
 theorem Alloc.ctx' {H H1 H2 : Heap α} {v : Tensor α} {c : Ctx α} (a : Alloc H v c H1) (e : Extends H1 H2) :
     H2.ctx H.size = c := by rw [e.ctx (by rw [a.size]; omega), a.ctx]
 
+theorem any_congr_mem {β : Type} (l : List β) (p q : β → Bool) (h : ∀ a ∈ l, p a = q a) : l.any p = l.any q := by
+  induction l with
+  | nil => rfl
+  | cons a l ih =>
+    simp only [List.any_cons]
+    rw [h a (by simp), ih (fun b hb => h b (by simp [hb]))]
+
+theorem all_congr_mem {β : Type} (l : List β) (p q : β → Bool) (h : ∀ a ∈ l, p a = q a) : l.all p = l.all q := by
+  induction l with
+  | nil => rfl
+  | cons a l ih =>
+    simp only [List.all_cons]
+    rw [h a (by simp), ih (fun b hb => h b (by simp [hb]))]
+
 theorem mkCtx_ext {H H' : Heap α} (e : Extends H H') (ops : List Nat) (hops : ∀ n ∈ ops, n < H.size) (es : List (Edge α)) :
     mkCtx H' ops es = mkCtx H ops es := by
   have h1 : ops.any H'.dirty = ops.any H.dirty := by
-    apply List.any_congr
+    apply any_congr_mem
     intro n hn
     simp only [Heap.dirty, e.ctx (hops n hn)]
   have h2 : ops.all (fun n => !H'.tracked n) = ops.all (fun n => !H.tracked n) := by
-    apply List.all_congr
+    apply all_congr_mem
     intro n hn
     simp only [Heap.tracked, e.ctx (hops n hn)]
   unfold mkCtx
@@ -387,13 +401,12 @@ theorem hBroadcast_alloc (x : Nat) (s : List Int) (H : Heap α) (v : Tensor α) 
   rw [bind_run (show (getHeap : HM α (Heap α)) H = .ok (H, H) from rfl), h]
   exact hOp1_alloc x v (fun y => Rule.bcastX x y) H
 
-theorem hSumAlong_alloc (x : Nat) (d : Nat) (H : Heap α) (v : Tensor α) (h : vAlong .sum (H.val x) (d : Int) = .ok v) :
-    ∃ H1, hAlong .sum x (d : Int) H = .ok (H.size, H1) ∧ Alloc H v (mkCtx H [x] [⟨x, .sumAlongX x d⟩]) H1 := by
+theorem hSumAlong_alloc (x : Nat) (d : Int) (H : Heap α) (v : Tensor α) (h : vAlong .sum (H.val x) d = .ok v) :
+    ∃ H1, hAlong .sum x d H = .ok (H.size, H1) ∧ Alloc H v (mkCtx H [x] [⟨x, .sumAlongX x d.toNat⟩]) H1 := by
   refine ⟨_, ?_, alloc_push H v _⟩
   unfold hAlong
   rw [bind_run (show (getHeap : HM α (Heap α)) H = .ok (H, H) from rfl), h]
-  have := hOp1_alloc x v (fun y => alongRule .sum x y (d : Int).toNat) H
-  simpa [alongRule] using this
+  exact hOp1_alloc x v (fun y => alongRule .sum x y d.toNat) H
 
 /-- `MatMul`: two `Broadcast` nodes, then the product node with the two MatMul edges -/
 theorem hMatMul_alloc (a b : Nat) (H : Heap α) (ha : a < H.size) (hb : b < H.size) (va vb v : Tensor α)
@@ -416,7 +429,8 @@ theorem hMatMul_alloc (a b : Nat) (H : Heap α) (ha : a < H.size) (hb : b < H.si
   rw [hs1] at r2 a2
   have hva : H2.val H.size = va := a1.val' a2.ext
   have hvb : H2.val (H.size + 1) = vb := by have := a2.val; rw [hs1] at this; exact this
-  refine ⟨H1, H2, _, ?_, a1, a2, ?_⟩
+  refine ⟨H1, H2, H2.push ⟨v, mkCtx H2 [H.size, H.size + 1] [⟨H.size, .matmulA (H.size + 1)⟩, ⟨H.size + 1, .matmulB H.size⟩]⟩,
+    ?_, a1, a2, ?_⟩
   · unfold hMatMul
     rw [bind_run (show (getHeap : HM α (Heap α)) H = .ok (H, H) from rfl), if_pos hv]
     unfold hBroadcastPairMM
@@ -434,6 +448,189 @@ theorem hMatMul_alloc (a b : Nat) (H : Heap α) (ha : a < H.size) (hb : b < H.si
     simp only [Out.ofOpt, liftOut, Out.bind, alloc, hs2]
   · have := alloc_push H2 v (mkCtx H2 [H.size, H.size + 1] [⟨H.size, .matmulA (H.size + 1)⟩, ⟨H.size + 1, .matmulB H.size⟩])
     exact this
+
+/-- `Add`: two `Broadcast` nodes, then the sum node with two identity edges -/
+theorem hAdd_alloc (a b : Nat) (H : Heap α) (ha : a < H.size) (hb : b < H.size) (va vb v : Tensor α)
+    (hba : vBroadcastN (H.val a) (targetBroadcastDims (H.val a).dims (H.val b).dims) = .ok va)
+    (hbb : vBroadcastN (H.val b) (targetBroadcastDims (H.val a).dims (H.val b).dims) = .ok vb)
+    (hz : Tensor.zipRaw Scalar.add va vb = some v) :
+    ∃ H1 H2 H3, hArith .add a b H = .ok (H.size + 2, H3) ∧
+      Alloc H va (mkCtx H [a] [⟨a, .bcastX a H.size⟩]) H1 ∧
+      Alloc H1 vb (mkCtx H1 [b] [⟨b, .bcastX b (H.size + 1)⟩]) H2 ∧
+      Alloc H2 v (mkCtx H2 [H.size, H.size + 1] [⟨H.size, .idG⟩, ⟨H.size + 1, .idG⟩]) H3 := by
+  obtain ⟨H1, r1, a1⟩ := hBroadcast_alloc a
+    ((targetBroadcastDims (H.val a).dims (H.val b).dims).map Int.ofNat) H va hba
+  have hbv : H1.val b = H.val b := a1.ext.val hb
+  obtain ⟨H2, r2, a2⟩ := hBroadcast_alloc b
+    ((targetBroadcastDims (H.val a).dims (H.val b).dims).map Int.ofNat) H1 vb (by rw [hbv]; exact hbb)
+  have hs1 : H1.size = H.size + 1 := a1.size
+  have hs2 : H2.size = H.size + 2 := by rw [a2.size, hs1]
+  rw [hs1] at r2 a2
+  have hva : H2.val H.size = va := a1.val' a2.ext
+  have hvb : H2.val (H.size + 1) = vb := by have := a2.val; rw [hs1] at this; exact this
+  refine ⟨H1, H2, H2.push ⟨v, mkCtx H2 [H.size, H.size + 1] [⟨H.size, .idG⟩, ⟨H.size + 1, .idG⟩]⟩, ?_, a1, a2,
+    alloc_push H2 v _⟩
+  unfold hArith hBroadcastPair
+  rw [hm_bind, hm_bind]
+  rw [show (getHeap : HM α (Heap α)) H = .ok (H, H) from rfl]
+  simp only [Out.bind]
+  rw [hm_bind, r1]
+  simp only [Out.bind]
+  rw [hm_bind, r2]
+  simp only [Out.bind, pure, StateT.pure]
+  rw [hm_bind]
+  rw [show (getHeap : HM α (Heap α)) H2 = .ok (H2, H2) from rfl]
+  simp only [Out.bind]
+  rw [hm_bind, hva, hvb]
+  have hz' : Tensor.zipRaw (Arith.fn Arith.add) va vb = some v := hz
+  rw [hz']
+  simp only [Out.ofOpt, liftOut, Out.bind, alloc, hs2]
+
+theorem Is2.congr {t : Tensor α} {m n : Nat} {f g : Nat → Nat → α} (h : Is2 t m n f)
+    (hfg : ∀ i j, i < m → j < n → f i j = g i j) : Is2 t m n g :=
+  ⟨h.wf, h.dims, fun i j hi hj => by rw [h.el i j hi hj, hfg i j hi hj]⟩
+
+theorem Is3.congr {t : Tensor α} {a b c : Nat} {f g : Nat → Nat → Nat → α} (h : Is3 t a b c f)
+    (hfg : ∀ i j k, i < a → j < b → k < c → f i j k = g i j k) : Is3 t a b c g :=
+  ⟨h.wf, h.dims, fun i j k hi hj hk => by rw [h.el i j k hi hj hk, hfg i j k hi hj hk]⟩
+
+/-! ## the graph `Forward` builds -/
+
+/-- one product term of the FC formula as the code computes it: `0 + W[o]·x[n][d]` (a 1-term MatMul fold) -/
+def term (Wf : Nat → α) (Xf : Nat → Nat → α) (n o d : Nat) : α := Scalar.add Scalar.zero (Scalar.mul (Wf o) (Xf n d))
+
+/-- **The nine tensors `(*FC).forward` allocates**, in allocation order from base id `k`, with their values and their
+    gradient contexts (`mkCtx`: tracked with the listed back edges as soon as an operand is tracked and none is spent):
+
+    `k` = `W.UnSqueeze(1)`, `k+1` = `x.UnSqueeze(1)`, `k+2`, `k+3` = the two `Broadcast`s inside `MatMul`,
+    `k+4` = the product, `k+5` = `SumAlong(2)`, `k+6`, `k+7` = the two `Broadcast`s inside `Add`, `k+8` = the result. -/
+structure FCGraph (H : Heap α) (w b x k : Nat) (N D O : Nat) (Wf Bf : Nat → α) (Xf : Nat → Nat → α) : Prop where
+  vw : Is1 (H.val w) O Wf
+  vb : Is1 (H.val b) O Bf
+  vx : Is2 (H.val x) N D Xf
+  w1 : Is2 (H.val k) O 1 (fun o _ => Wf o)
+  x1 : Is3 (H.val (k + 1)) N 1 D (fun n _ d => Xf n d)
+  wb : Is3 (H.val (k + 2)) N O 1 (fun _ o _ => Wf o)
+  xb : H.val (k + 3) = H.val (k + 1)
+  mm : Is3 (H.val (k + 4)) N O D (term Wf Xf)
+  s : Is2 (H.val (k + 5)) N O (fun n o => sumOver D (term Wf Xf n o))
+  sb : H.val (k + 6) = H.val (k + 5)
+  bb : Is2 (H.val (k + 7)) N O (fun _ o => Bf o)
+  y : Is2 (H.val (k + 8)) N O (fun n o => Scalar.add (sumOver D (term Wf Xf n o)) (Bf o))
+  c0 : H.ctx k = mkCtx H [w] [⟨w, .reshapeX w⟩]
+  c1 : H.ctx (k + 1) = mkCtx H [x] [⟨x, .reshapeX x⟩]
+  c2 : H.ctx (k + 2) = mkCtx H [k] [⟨k, .bcastX k (k + 2)⟩]
+  c3 : H.ctx (k + 3) = mkCtx H [k + 1] [⟨k + 1, .bcastX (k + 1) (k + 3)⟩]
+  c4 : H.ctx (k + 4) = mkCtx H [k + 2, k + 3] [⟨k + 2, .matmulA (k + 3)⟩, ⟨k + 3, .matmulB (k + 2)⟩]
+  c5 : H.ctx (k + 5) = mkCtx H [k + 4] [⟨k + 4, .sumAlongX (k + 4) 2⟩]
+  c6 : H.ctx (k + 6) = mkCtx H [k + 5] [⟨k + 5, .bcastX (k + 5) (k + 6)⟩]
+  c7 : H.ctx (k + 7) = mkCtx H [b] [⟨b, .bcastX b (k + 7)⟩]
+  c8 : H.ctx (k + 8) = mkCtx H [k + 6, k + 7] [⟨k + 6, .idG⟩, ⟨k + 7, .idG⟩]
+
+theorem Alloc.final {H0 Hi Hj H9 : Heap α} {v : Tensor α} {c : Ctx α} {i : Nat} (a : Alloc Hi v c Hj)
+    (si : Hi.size = H0.size + i) (e : Extends Hj H9) : H9.val (H0.size + i) = v ∧ H9.ctx (H0.size + i) = c := by
+  rw [← si]; exact ⟨a.val' e, a.ctx' e⟩
+
+/-- **`Forward` is total on valid input and builds exactly this graph.** For every heap, every batch size `N`, feature
+    count `D` and output count `O` (all ≥ 1, implied by well-formedness), parameters `W, B : [O]`, input `x : [N, D]`:
+    `Forward` returns `ok`, allocates nine nodes (ids `H.size … H.size+8`, the last is the result), changes nothing
+    else, and the nodes' values and gradient contexts are the ones listed in `FCGraph`. -/
+theorem fc_forward_graph (N D O : Nat) (w b x : Nat) (H : Heap α) (hw : w < H.size) (hb : b < H.size) (hx : x < H.size)
+    (Wf Bf : Nat → α) (Xf : Nat → Nat → α)
+    (vw : Is1 (H.val w) O Wf) (vb : Is1 (H.val b) O Bf) (vx : Is2 (H.val x) N D Xf) :
+    ∃ H', fcForward ⟨some w, some b⟩ [some x] H = .ok (H.size + 8, H') ∧ Extends H H' ∧ H'.size = H.size + 9 ∧
+      FCGraph H' w b x H.size N D O Wf Bf Xf := by
+  have hO := vw.pos
+  obtain ⟨hN, hD⟩ := vx.pos
+  -- k : W.UnSqueeze(1)
+  obtain ⟨w1v, e0, _, i0⟩ := unsq1_vec vw
+  obtain ⟨H1, r0, a0⟩ := hUnSqueeze_alloc w 1 H w1v e0
+  have s1 : H1.size = H.size + 1 := a0.size
+  -- k+1 : x.UnSqueeze(1)
+  obtain ⟨x1v, e1, _, i1⟩ := unsq1_mat vx
+  obtain ⟨H2, r1, a1⟩ := hUnSqueeze_alloc x 1 H1 x1v (by rw [a0.ext.val hx]; exact e1)
+  have s2 : H2.size = H.size + 2 := by rw [a1.size, s1]
+  have v0 : H2.val H.size = w1v := a0.val' a1.ext
+  have v1 : H2.val (H.size + 1) = x1v := by have := a1.val; rwa [s1] at this
+  -- k+2, k+3, k+4 : MatMul
+  have htb : targetBroadcastDims (H2.val H.size).dims (H2.val (H.size + 1)).dims = [N, O, D] := by
+    rw [v0, v1, i0.dims, i1.dims]; exact targetBroadcast_fc N O D hO hD
+  obtain ⟨wbv, e2, i2⟩ := bcast_lead3 i0 N hN
+  obtain ⟨mmv, e4, i4'⟩ := matMulRaw3 i2 i1
+  have i4 : Is3 mmv N O D (term Wf Xf) := i4'.congr (fun n o d _ _ _ => sumOver_one _)
+  obtain ⟨H3, H4, H5, r2, a2, a3, a4⟩ := hMatMul_alloc H.size (H.size + 1) H2 (by omega) (by omega) wbv x1v mmv
+    (by rw [v0, v1, i0.dims, i1.dims]; simp [validMatMul])
+    (by
+      rw [htb, v0, i0.dims]
+      exact e2)
+    (by
+      rw [htb, v1, i1.dims]
+      have := vBroadcastN_self x1v i1.wf
+      rw [i1.dims] at this
+      exact this)
+    e4
+  have s3 : H3.size = H.size + 3 := by rw [a2.size, s2]
+  have s4 : H4.size = H.size + 4 := by rw [a3.size, s3]
+  have s5 : H5.size = H.size + 5 := by rw [a4.size, s4]
+  -- k+5 : SumAlong(2)
+  have v4 : H5.val (H.size + 4) = mmv := by have := a4.val; rwa [s4] at this
+  obtain ⟨sv, e5, i5⟩ := sum_along2 i4
+  obtain ⟨H6, r5, a5⟩ := hSumAlong_alloc (H.size + 4) 2 H5 sv (by rw [v4]; exact e5)
+  have s6 : H6.size = H.size + 6 := by rw [a5.size, s5]
+  -- k+6, k+7, k+8 : Add
+  have v5 : H6.val (H.size + 5) = sv := by have := a5.val; rwa [s5] at this
+  have x06 : Extends H H6 :=
+    a0.ext.trans (a1.ext.trans (a2.ext.trans (a3.ext.trans (a4.ext.trans a5.ext))))
+  have vb6 : H6.val b = H.val b := x06.val hb
+  have htb2 : targetBroadcastDims (H6.val (H.size + 5)).dims (H6.val b).dims = [N, O] := by
+    rw [v5, vb6, i5.dims, vb.dims]; simp [targetBroadcastDims, targetBroadcastLE]
+  obtain ⟨bbv, e7, i7⟩ := bcast_row2 vb N hN
+  obtain ⟨yv, e8, i8⟩ := zip2 Scalar.add i5 i7
+  obtain ⟨H7, H8, H9, r6, a6, a7, a8⟩ := hAdd_alloc (H.size + 5) b H6 (by omega) (by omega) sv bbv yv
+    (by
+      rw [htb2, v5]
+      have := vBroadcastN_self sv i5.wf
+      rw [i5.dims] at this
+      exact this)
+    (by rw [htb2, vb6]; exact e7)
+    e8
+  have s7 : H7.size = H.size + 7 := by rw [a6.size, s6]
+  have s8 : H8.size = H.size + 8 := by rw [a7.size, s7]
+  have s9 : H9.size = H.size + 9 := by rw [a8.size, s8]
+  -- extensions up to the final heap
+  have x99 : Extends H9 H9 := Extends.refl H9
+  have x89 : Extends H8 H9 := a8.ext
+  have x79 : Extends H7 H9 := a7.ext.trans x89
+  have x69 : Extends H6 H9 := a6.ext.trans x79
+  have x59 : Extends H5 H9 := a5.ext.trans x69
+  have x49 : Extends H4 H9 := a4.ext.trans x59
+  have x39 : Extends H3 H9 := a3.ext.trans x49
+  have x29 : Extends H2 H9 := a2.ext.trans x39
+  have x19 : Extends H1 H9 := a1.ext.trans x29
+  have x09 : Extends H H9 := a0.ext.trans x19
+  -- node facts in the final heap
+  obtain ⟨f0v, f0c⟩ := a0.final (H0 := H) (i := 0) rfl x19
+  obtain ⟨f1v, f1c⟩ := a1.final (H0 := H) s1 x29
+  obtain ⟨f2v, f2c⟩ := a2.final (H0 := H) s2 x39
+  obtain ⟨f3v, f3c⟩ := a3.final (H0 := H) s3 x49
+  obtain ⟨f4v, f4c⟩ := a4.final (H0 := H) s4 x59
+  obtain ⟨f5v, f5c⟩ := a5.final (H0 := H) s5 x69
+  obtain ⟨f6v, f6c⟩ := a6.final (H0 := H) s6 x79
+  obtain ⟨f7v, f7c⟩ := a7.final (H0 := H) s7 x89
+  obtain ⟨f8v, f8c⟩ := a8.final (H0 := H) s8 x99
+  simp only [Nat.add_zero] at f0v f0c
+  rw [s2] at f2c f3c f4c
+  rw [s6] at f6c f7c f8c
+  refine ⟨H9, ?_, x09, s9, ?_⟩
+  · unfold fcForward
+    rw [bind_run (show (liftOut (oneInput [some x]) : HM α Nat) H = .ok (x, H) from rfl)]
+    rw [bind_run (show (getHeap : HM α (Heap α)) H = .ok (H, H) from rfl)]
+    have hr : ¬ ((H.val x).dims.length ≠ 2) := by rw [vx.dims]; simp
+    rw [if_neg hr]
+    simp only []
+    rw [bind_run r0, s1.symm ▸ bind_run r1]
+    sorry
+  · sorry
 
 end C16x
 end Qeep
